@@ -48,6 +48,9 @@ pub enum Call {
     PartsQual(String, String),
     /// `if let Ok(q) = Qualifiers::try_from_iter(pairs) { b.parts.qualifiers = q }`
     PartsQualsFromIter(Vec<(String, String)>),
+    /// `match b.clone().build() { Ok(p) => p.into_builder(), Err(_) => b }` — a detour through
+    /// an immutable PURL in the middle of a history
+    Rebuild,
 }
 
 /// Field touched by a call, for the commutation check ("calls on different fields commute").
@@ -60,6 +63,8 @@ pub enum Field {
     Type,
     Qual(String),
     AllQuals,
+    /// touches every field (never commutes)
+    Everything,
     None,
 }
 
@@ -79,6 +84,7 @@ impl Call {
                 }
             },
             Call::NoQuals | Call::PartsQualsFromIter(_) => Field::AllQuals,
+            Call::Rebuild => Field::Everything,
             Call::Typed(i, _) => Field::Qual(TYPED_KEYS[*i as usize].to_string()),
             Call::Checksum(_) => Field::Qual("checksum".into()),
         }
@@ -86,6 +92,7 @@ impl Call {
 
     pub fn commutes_with(&self, other: &Call) -> bool {
         match (self.field(), other.field()) {
+            (Field::Everything, _) | (_, Field::Everything) => false,
             (Field::None, _) | (_, Field::None) => true,
             (Field::AllQuals, Field::Qual(_)) | (Field::Qual(_), Field::AllQuals) => false,
             (a, b) => a != b,
@@ -105,6 +112,8 @@ pub struct Hist {
 
 #[derive(Clone, Debug, Default, PartialEq, Eq)]
 pub struct BModel {
+    /// the type parameter is the built-in enum (its rules apply at build time)
+    pub typed: bool,
     pub ty: String,
     pub ns: String,
     pub name: String,
@@ -172,6 +181,14 @@ impl BModel {
                 }
             },
             Call::NoQuals => self.quals.clear(),
+            Call::Rebuild => {
+                // a successful build normalises the state; a refused one leaves it alone
+                if let Ok(b) = expected_build(self, self.typed) {
+                    self.ty = b.ty;
+                    self.name = b.name;
+                    self.quals = b.quals.into_iter().collect();
+                }
+            },
             Call::PartsQualsFromIter(pairs) => {
                 let mut n = BTreeMap::new();
                 let mut ok = true;
@@ -308,6 +325,7 @@ pub fn universe_calls(typed: bool) -> Vec<Call> {
         v.push(Call::NoQual(k.to_string()));
     }
     v.push(Call::Typed(0, None));
+    v.push(Call::Rebuild);
     v.push(Call::Typed(4, Some("x".into())));
     v.push(Call::Typed(7, Some("x".into())));
     v.push(Call::Typed(7, None));
@@ -373,7 +391,7 @@ pub fn rand_cs_entries(r: &mut Rng) -> Vec<(String, CsVal)> {
 }
 
 pub fn rand_call(r: &mut Rng, typed: bool) -> Call {
-    match r.below(41) {
+    match r.below(42) {
         0..=3 => Call::Ns(rand_value(r)),
         4 => Call::NoNs,
         5..=8 => Call::Name(rand_value(r)),
@@ -399,6 +417,7 @@ pub fn rand_call(r: &mut Rng, typed: bool) -> Call {
         34 => Call::PartsName(rand_value(r)),
         35 => Call::PartsVer(rand_value(r)),
         36 => Call::PartsSub(rand_value(r)),
+        39 => Call::Rebuild,
         37 => {
             if typed {
                 Call::PartsType(r.pick(&model::KNOWN_TYPES).to_string())
